@@ -226,6 +226,21 @@ def generate(rng):
             if res[0] == "ok":
                 ms[dst] = res[1]
             continue
+        if rng.random() < 0.01:
+            n = rng.choice([65537, 70000, 100003, 2**17, 2**20 + 7])
+            bonds = []
+            for _ in range(rng.randint(1, 4)):
+                i = rng.randrange(0, max(1, min(n, (n * n - 2**32) // n) - 1))
+                j = rng.randrange(i + 1, n)
+                bonds.append([i, j, rng.randrange(NTYPES)])
+                i2, j2 = divmod(i * n + j + 2**32, n)
+                if i2 < j2 < n and rng.random() < 0.8:
+                    bonds.append([i2, j2, rng.randrange(NTYPES)])  # same key modulo 2^32
+            rng.shuffle(bonds)
+            seen = set()
+            bonds = [b for b in bonds if (b[0], b[1]) not in seen and not seen.add((b[0], b[1]))]
+            ops.append({"op": "big", "n": n, "bonds": bonds})
+            continue
         a = rng.choice(lv)
         m = ms[a]
         if r < 0.30:
@@ -631,7 +646,47 @@ class Sim:
             if out != "skip":
                 self.check_all(op["op"])
 
+    def op_big(self, op):
+        """A bond list over a very large atom count (ribosomes, capsids) with a handful of bonds: the cheap views only
+        (no n x n matrices). The bonds include pairs whose row-major keys i*n+j agree modulo 2^32, so index arithmetic
+        squeezed into 32 bits would confuse them."""
+        n, bonds = op["n"], op["bonds"]
+        model = {}
+        for i, j, t in bonds:
+            model.setdefault((min(i, j), max(i, j)), t)
+        self.res.stats["probe:huge-atom-count"] += 1
+
+        def views(bl):
+            arr = bl.as_array()
+            got = {(int(a), int(b)): int(t) for a, b, t in arr.tolist()}
+            if len(arr) != len(got) or got != model or bl.get_bond_count() != len(model) or bl.get_atom_count() != n:
+                return "array/count", sorted(got.items())
+            if bl.as_set() != {(a, b, t) for (a, b), t in model.items()}:
+                return "set", sorted(bl.as_set())
+            for (a, b), t in model.items():
+                if (a, b) not in bl or (b, a) not in bl:
+                    return "membership", [a, b]
+                idx, types = bl.get_bonds(a)
+                exp = sorted((y if x == a else x, tt) for (x, y), tt in model.items() if a in (x, y))
+                if sorted(zip([int(v) for v in idx], [int(v) for v in types])) != exp:
+                    return "get_bonds", [a, [int(v) for v in idx]]
+            return None
+
+        def build(rows):
+            return self.BL(n, np.array(rows, dtype=np.int64)) if rows else self.BL(n)
+
+        st, v = call(lambda: views(build(bonds)))
+        if st == "exc" or v is not None:
+            self.fail("view:huge-atom-count", how="constructor", n=n, got=exc_name(v) if st == "exc" else list(v), bonds=bonds)
+        half = len(bonds) // 2
+        st, v = call(lambda: views(build(bonds[:half]).merge(build(bonds[half:]))))
+        if st == "exc" or v is not None:
+            self.fail("view:huge-atom-count", how="merge", n=n, got=exc_name(v) if st == "exc" else list(v), bonds=bonds)
+        return "ok"
+
     def do(self, op):
+        if op["op"] == "big":
+            return self.op_big(op)
         res = apply_model(self.ms, op)
         if res[0] == "skip":
             return "skip"
